@@ -1,6 +1,7 @@
 /-
 I_job: an activity runs job `j` for queue `q` exactly when `j` is held by it and belongs to `q`; the jobs in a queue's
-list are exactly the queued jobs of that queue.
+list are exactly the queued jobs of that queue; an open job is in the hands of a runner or is the head of its queue;
+while a job of a queue is in the hands of a runner no queued job of that queue is open.
 -/
 import DesyncModel.Inv.JobProj
 import DesyncModel.Inv.JobAbs
@@ -9,11 +10,11 @@ import DesyncModel.Inv.JobWf
 namespace Desync
 open Gen
 
-/-- I_job for a state: the abstract invariant over `runningQ ∘ pcAt`, `jobPQ`, `qjobs` -/
-abbrev JobInv (s : State) : Prop := JobInvF (fun a => (s.pcAt a).runningQ) s.jobPQ s.qjobs
+/-- I_job for a state: the abstract invariant over `runningQ ∘ pcAt`, `jobPQ`, `qjobs`, `jobOpen` -/
+abbrev JobInv (s : State) : Prop := JobInvF (fun a => (s.pcAt a).runningQ) s.jobPQ s.qjobs s.jobOpen
 
 theorem jobInv_init (nq ng max : Nat) : JobInv (initState nq ng max) := by
-  refine ⟨?_, ?_, ?_, ?_⟩
+  refine ⟨?_, ?_, ?_, ?_, ?_, ?_, ?_⟩
   · intro a j q h; simp [initState, State.pcAt, Pc.runningQ] at h
   · intro a j q h; simp [initState, State.jobPQ] at h
   · intro q l j h hj
@@ -24,47 +25,27 @@ theorem jobInv_init (nq ng max : Nat) : JobInv (initState nq ng max) := by
     simp only [initState, State.qjobs, List.getElem?_replicate] at h
     split at h <;> simp at h
     subst h; exact List.nodup_nil
+  · intro j q h; simp [initState, State.jobPQ] at h
+  · intro j h; simp [initState, State.jobOpen] at h
+  · intro j1 j2 a q h; simp [initState, State.jobPQ] at h
 
-/-- A step of activity `a` that changes no job's phase or queue and no queue's job list, and after which `a` runs the
-same job as before. -/
-theorem JobInv.frame {s X : State} {a : Nat} {pc' : Pc} (h : JobInv s)
-    (hpc : ∀ b, X.pcAt b = s.pcAt b) (hj : ∀ i, X.jobPQ i = s.jobPQ i) (hq : ∀ i, X.qjobs i = s.qjobs i)
-    (hrun : pc'.runningQ = (s.pcAt a).runningQ) : JobInv (X.goto a pc') := by
-  have hpc' : ∀ b, ((X.goto a pc').pcAt b).runningQ = (s.pcAt b).runningQ := by
-    intro b
-    rw [pcAt_goto]
-    split
-    · next hab => rw [hrun, hab.1]
-    · rw [hpc]
-  refine ⟨?_, ?_, ?_, ?_⟩
-  · intro b j q hb; rw [hpc'] at hb; rw [jobPQ_goto, hj]; exact h.run1 b j q hb
-  · intro b j q hb; rw [jobPQ_goto, hj] at hb; rw [hpc']; exact h.run2 b j q hb
-  · intro q l j hl hm; rw [qjobs_goto, hq] at hl; rw [jobPQ_goto, hj]; exact h.queued q l j hl hm
-  · intro q l hl; rw [qjobs_goto, hq] at hl; exact h.nodup q l hl
-
-theorem JobInv.frame_setAct {s X : State} {a : Nat} {v : Act} (h : JobInv s)
-    (hpc : ∀ b, X.pcAt b = s.pcAt b) (hj : ∀ i, X.jobPQ i = s.jobPQ i) (hq : ∀ i, X.qjobs i = s.qjobs i)
-    (hrun : v.pc.runningQ = (s.pcAt a).runningQ) : JobInv (X.setAct a v) := by
-  have hpc' : ∀ b, ((X.setAct a v).pcAt b).runningQ = (s.pcAt b).runningQ := by
-    intro b
-    rw [pcAt_setAct]
-    split
-    · next hab => rw [hrun, hab.1]
-    · rw [hpc]
-  refine ⟨?_, ?_, ?_, ?_⟩
-  · intro b j q hb; rw [hpc'] at hb; rw [jobPQ_setAct, hj]; exact h.run1 b j q hb
-  · intro b j q hb; rw [jobPQ_setAct, hj] at hb; rw [hpc']; exact h.run2 b j q hb
-  · intro q l j hl hm; rw [qjobs_setAct, hq] at hl; rw [jobPQ_setAct, hj]; exact h.queued q l j hl hm
-  · intro q l hl; rw [qjobs_setAct, hq] at hl; exact h.nodup q l hl
-
-/-- the invariant reads only the program counters (through `runningQ`), `jobPQ` and `qjobs` -/
+/-- the invariant reads only the program counters (through `runningQ`), `jobPQ`, `qjobs` and `jobOpen` -/
 theorem JobInv.of_eq {s X : State} (h : JobInv s) (hpc : ∀ b, (X.pcAt b).runningQ = (s.pcAt b).runningQ)
-    (hj : ∀ i, X.jobPQ i = s.jobPQ i) (hq : ∀ i, X.qjobs i = s.qjobs i) : JobInv X := by
-  refine ⟨?_, ?_, ?_, ?_⟩
-  · intro b j q hb; rw [hpc] at hb; rw [hj]; exact h.run1 b j q hb
-  · intro b j q hb; rw [hj] at hb; rw [hpc]; exact h.run2 b j q hb
-  · intro q l j hl hm; rw [hq] at hl; rw [hj]; exact h.queued q l j hl hm
-  · intro q l hl; rw [hq] at hl; exact h.nodup q l hl
+    (hj : ∀ i, X.jobPQ i = s.jobPQ i) (hq : ∀ i, X.qjobs i = s.qjobs i) (ho : ∀ i, X.jobOpen i = s.jobOpen i) : JobInv X := by
+  have e1 : (fun a => (X.pcAt a).runningQ) = (fun a => (s.pcAt a).runningQ) := funext hpc
+  have e2 : X.jobPQ = s.jobPQ := funext hj
+  have e3 : X.qjobs = s.qjobs := funext hq
+  have e4 : X.jobOpen = s.jobOpen := funext ho
+  show JobInvF _ _ _ _
+  rw [e1, e2, e3, e4]; exact h
+
+/-- the invariant reads only `acts`, `jobs` and `qs` -/
+theorem JobInv.congr {X Y : State} (h : JobInv Y) (hA : X.acts = Y.acts) (hJ : X.jobs = Y.jobs) (hQ : X.qs = Y.qs) : JobInv X := by
+  refine JobInv.of_eq h ?_ ?_ ?_ ?_
+  · intro b; simp only [State.pcAt, hA]
+  · intro i; simp only [State.jobPQ, hJ]
+  · intro i; simp only [State.qjobs, hQ]
+  · intro i; simp only [State.jobOpen, hJ]
 
 /-- how `goto` acts on "which job does each activity run" -/
 theorem runR_goto {s X : State} {a : Nat} {pc' : Pc} (hlt : a < X.acts.length) (hpc : ∀ b, X.pcAt b = s.pcAt b) :
@@ -76,73 +57,124 @@ theorem runR_goto {s X : State} {a : Nat} {pc' : Pc} (hlt : a < X.acts.length) (
   · have : ¬ b = a := fun e => hab e.symm
     simp [hab, this, hpc]
 
-theorem runR_setAct {s X : State} {a : Nat} {v : Act} (hlt : a < X.acts.length) (hpc : ∀ b, X.pcAt b = s.pcAt b) :
-    ∀ b, ((X.setAct a v).pcAt b).runningQ = if b = a then v.pc.runningQ else (s.pcAt b).runningQ := by
+theorem runR_goto_same {s X : State} {a : Nat} {pc' : Pc} (hpc : ∀ b, X.pcAt b = s.pcAt b) (hrun : pc'.runningQ = (s.pcAt a).runningQ) :
+    ∀ b, ((X.goto a pc').pcAt b).runningQ = (s.pcAt b).runningQ := by
+  intro b
+  rw [pcAt_goto]
+  split
+  · next hab => rw [hrun, hab.1]
+  · rw [hpc]
+
+theorem runR_setAct_same {s X : State} {a : Nat} {v : Act} (hpc : ∀ b, X.pcAt b = s.pcAt b) (hrun : v.pc.runningQ = (s.pcAt a).runningQ) :
+    ∀ b, ((X.setAct a v).pcAt b).runningQ = (s.pcAt b).runningQ := by
   intro b
   rw [pcAt_setAct]
-  by_cases hab : a = b
-  · subst hab; simp [hlt]
-  · have : ¬ b = a := fun e => hab e.symm
-    simp [hab, this, hpc]
+  split
+  · next hab => rw [hrun, hab.1]
+  · rw [hpc]
+
+/-- transport along pointwise equalities of the four projections -/
+theorem JobInvF.congr {R R' J J' Q Q' O O'} (h : JobInvF R J Q O) (hR : ∀ b, R' b = R b) (hJ : ∀ i, J' i = J i) (hQ : ∀ i, Q' i = Q i) (hO : ∀ i, O' i = O i) :
+    JobInvF R' J' Q' O' := by
+  have e1 : R' = R := funext hR
+  have e2 : J' = J := funext hJ
+  have e3 : Q' = Q := funext hQ
+  have e4 : O' = O := funext hO
+  rw [e1, e2, e3, e4]; exact h
+
+/-- A step of activity `a` that changes no job's phase or queue and no queue's job list, after which `a` runs the same
+job as before, and that opens or closes only jobs that are in the hands of a runner. -/
+theorem JobInv.frame {s X : State} {a : Nat} {pc' : Pc} (h : JobInv s)
+    (hpc : ∀ b, X.pcAt b = s.pcAt b) (hj : ∀ i, X.jobPQ i = s.jobPQ i) (hq : ∀ i, X.qjobs i = s.qjobs i)
+    (ho : ∀ i, X.jobOpen i = true → s.jobOpen i = true ∨ ∃ a q, s.jobPQ i = some (.held a, q))
+    (hrun : pc'.runningQ = (s.pcAt a).runningQ) : JobInv (X.goto a pc') := by
+  have h1 : JobInvF (fun b => (s.pcAt b).runningQ) s.jobPQ s.qjobs X.jobOpen := JobInvF.frameO h ho
+  exact JobInvF.congr h1 (runR_goto_same hpc hrun) (fun i => by rw [jobPQ_goto, hj]) (fun i => by rw [qjobs_goto, hq]) (fun i => by rw [jobOpen_goto])
+
+theorem JobInv.frame_setAct {s X : State} {a : Nat} {v : Act} (h : JobInv s)
+    (hpc : ∀ b, X.pcAt b = s.pcAt b) (hj : ∀ i, X.jobPQ i = s.jobPQ i) (hq : ∀ i, X.qjobs i = s.qjobs i)
+    (ho : ∀ i, X.jobOpen i = true → s.jobOpen i = true ∨ ∃ a q, s.jobPQ i = some (.held a, q))
+    (hrun : v.pc.runningQ = (s.pcAt a).runningQ) : JobInv (X.setAct a v) := by
+  have h1 : JobInvF (fun b => (s.pcAt b).runningQ) s.jobPQ s.qjobs X.jobOpen := JobInvF.frameO h ho
+  exact JobInvF.congr h1 (runR_setAct_same hpc hrun) (fun i => by rw [jobPQ_setAct, hj]) (fun i => by rw [qjobs_setAct, hq]) (fun i => by rw [jobOpen_setAct])
 
 theorem JobInv.retire {s X : State} {a j q : Nat} {pc' : Pc} {ph : Phase} (h : JobInv s)
     (hlt : a < X.acts.length) (hpc : ∀ b, X.pcAt b = s.pcAt b) (hold : (s.pcAt a).runningQ = some (j, q))
     (hph : ∀ b, ph ≠ .held b) (hphq : ph ≠ .queued)
     (hj : ∀ i, X.jobPQ i = if i = j then some (ph, q) else s.jobPQ i) (hq : ∀ i, X.qjobs i = s.qjobs i)
+    (ho : ∀ i, X.jobOpen i = if i = j then false else s.jobOpen i)
     (hnew : pc'.runningQ = none) : JobInv (X.goto a pc') := by
-  have h1 : JobInvF (fun b => ((X.goto a pc').pcAt b).runningQ) X.jobPQ s.qjobs :=
-    JobInvF.retire h hold hph hphq (by intro b; rw [runR_goto hlt hpc, hnew]) hj
-  exact ⟨fun b j q hb => by rw [jobPQ_goto]; exact h1.run1 b j q hb, fun b j q hb => by rw [jobPQ_goto] at hb; exact h1.run2 b j q hb,
-         fun q l j hl hm => by rw [qjobs_goto, hq] at hl; rw [jobPQ_goto]; exact h1.queued q l j hl hm,
-         fun q l hl => by rw [qjobs_goto, hq] at hl; exact h1.nodup q l hl⟩
+  have h1 : JobInvF (fun b => ((X.goto a pc').pcAt b).runningQ) X.jobPQ s.qjobs X.jobOpen :=
+    JobInvF.retire h hold hph hphq (by intro b; rw [runR_goto hlt hpc, hnew]) hj ho
+  exact JobInvF.congr h1 (fun _ => rfl) (fun i => by rw [jobPQ_goto]) (fun i => by rw [qjobs_goto, hq]) (fun i => by rw [jobOpen_goto])
 
-theorem JobInv.requeue {s X : State} {a j q : Nat} {pc' : Pc} (h : JobInv s)
-    (hlt : a < X.acts.length) (hpc : ∀ b, X.pcAt b = s.pcAt b) (hold : (s.pcAt a).runningQ = some (j, q))
+theorem JobInv.requeue {s X : State} {a j q : Nat} {l0 : List Nat} {pc' : Pc} (h : JobInv s) (hx : HeldExcl s.jobPQ)
+    (hlt : a < X.acts.length) (hpc : ∀ b, X.pcAt b = s.pcAt b) (hold : (s.pcAt a).runningQ = some (j, q)) (hq0 : s.qjobs q = some l0)
     (hj : ∀ i, X.jobPQ i = if i = j then some (.queued, q) else s.jobPQ i)
-    (hq : ∀ i, X.qjobs i = if i = q then (s.qjobs q).map (j :: ·) else s.qjobs i)
+    (hq : ∀ i, X.qjobs i = if i = q then some (j :: l0) else s.qjobs i)
+    (ho : ∀ i, X.jobOpen i = s.jobOpen i)
     (hnew : pc'.runningQ = none) : JobInv (X.goto a pc') := by
-  have h1 : JobInvF (fun b => ((X.goto a pc').pcAt b).runningQ) X.jobPQ X.qjobs :=
-    JobInvF.requeue h hold (by intro b; rw [runR_goto hlt hpc, hnew]) hj hq
-  exact ⟨fun b j q hb => by rw [jobPQ_goto]; exact h1.run1 b j q hb, fun b j q hb => by rw [jobPQ_goto] at hb; exact h1.run2 b j q hb,
-         fun q l j hl hm => by rw [qjobs_goto] at hl; rw [jobPQ_goto]; exact h1.queued q l j hl hm,
-         fun q l hl => by rw [qjobs_goto] at hl; exact h1.nodup q l hl⟩
+  have h1 : JobInvF (fun b => ((X.goto a pc').pcAt b).runningQ) X.jobPQ X.qjobs s.jobOpen :=
+    JobInvF.requeue h hx hold hq0 (by intro b; rw [runR_goto hlt hpc, hnew]) hj hq
+  exact JobInvF.congr h1 (fun _ => rfl) (fun i => by rw [jobPQ_goto]) (fun i => by rw [qjobs_goto]) (fun i => by rw [jobOpen_goto, ho])
 
 theorem JobInv.take {s X : State} {a j q : Nat} {rest : List Nat} {pc' : Pc} (h : JobInv s)
     (hlt : a < X.acts.length) (hpc : ∀ b, X.pcAt b = s.pcAt b) (hidle : (s.pcAt a).runningQ = none)
     (hhead : s.qjobs q = some (j :: rest))
     (hj : ∀ i, X.jobPQ i = if i = j then some (.held a, q) else s.jobPQ i)
     (hq : ∀ i, X.qjobs i = if i = q then some rest else s.qjobs i)
+    (ho : ∀ i, X.jobOpen i = s.jobOpen i)
     (hnew : pc'.runningQ = some (j, q)) : JobInv (X.goto a pc') := by
-  have h1 : JobInvF (fun b => ((X.goto a pc').pcAt b).runningQ) X.jobPQ X.qjobs :=
+  have h1 : JobInvF (fun b => ((X.goto a pc').pcAt b).runningQ) X.jobPQ X.qjobs s.jobOpen :=
     JobInvF.take h hidle hhead (by intro b; rw [runR_goto hlt hpc, hnew]) hj hq
-  exact ⟨fun b j q hb => by rw [jobPQ_goto]; exact h1.run1 b j q hb, fun b j q hb => by rw [jobPQ_goto] at hb; exact h1.run2 b j q hb,
-         fun q l j hl hm => by rw [qjobs_goto] at hl; rw [jobPQ_goto]; exact h1.queued q l j hl hm,
-         fun q l hl => by rw [qjobs_goto] at hl; exact h1.nodup q l hl⟩
+  exact JobInvF.congr h1 (fun _ => rfl) (fun i => by rw [jobPQ_goto]) (fun i => by rw [qjobs_goto]) (fun i => by rw [jobOpen_goto, ho])
 
 theorem JobInv.newHeld {s X : State} {a n q : Nat} {pc' : Pc} (h : JobInv s)
     (hlt : a < X.acts.length) (hpc : ∀ b, X.pcAt b = s.pcAt b) (hidle : (s.pcAt a).runningQ = none) (hfresh : s.jobPQ n = none)
+    (hempty : s.qjobs q = some [])
     (hj : ∀ i, X.jobPQ i = if i = n then some (.held a, q) else s.jobPQ i) (hq : ∀ i, X.qjobs i = s.qjobs i)
+    (ho : ∀ i, i ≠ n → X.jobOpen i = s.jobOpen i)
     (hnew : pc'.runningQ = some (n, q)) : JobInv (X.goto a pc') := by
-  have h1 : JobInvF (fun b => ((X.goto a pc').pcAt b).runningQ) X.jobPQ s.qjobs :=
-    JobInvF.newHeld h hidle hfresh (by intro b; rw [runR_goto hlt hpc, hnew]) hj
-  exact ⟨fun b j q hb => by rw [jobPQ_goto]; exact h1.run1 b j q hb, fun b j q hb => by rw [jobPQ_goto] at hb; exact h1.run2 b j q hb,
-         fun q l j hl hm => by rw [qjobs_goto, hq] at hl; rw [jobPQ_goto]; exact h1.queued q l j hl hm,
-         fun q l hl => by rw [qjobs_goto, hq] at hl; exact h1.nodup q l hl⟩
+  have h1 : JobInvF (fun b => ((X.goto a pc').pcAt b).runningQ) X.jobPQ s.qjobs X.jobOpen :=
+    JobInvF.newHeld h hidle hfresh hempty (by intro b; rw [runR_goto hlt hpc, hnew]) hj ho
+  exact JobInvF.congr h1 (fun _ => rfl) (fun i => by rw [jobPQ_goto]) (fun i => by rw [qjobs_goto, hq]) (fun i => by rw [jobOpen_goto])
 
 theorem JobInv.newQueued {s X : State} {a n q : Nat} {l0 : List Nat} {pc' : Pc} (h : JobInv s)
     (hpc : ∀ b, X.pcAt b = s.pcAt b) (hfresh : s.jobPQ n = none) (hq0 : s.qjobs q = some l0)
     (hj : ∀ i, X.jobPQ i = if i = n then some (.queued, q) else s.jobPQ i)
     (hq : ∀ i, X.qjobs i = if i = q then some (l0 ++ [n]) else s.qjobs i)
+    (ho : ∀ i, X.jobOpen i = if i = n then false else s.jobOpen i)
     (hrun : pc'.runningQ = (s.pcAt a).runningQ) : JobInv (X.goto a pc') := by
-  have h0 : JobInvF (fun b => (s.pcAt b).runningQ) X.jobPQ X.qjobs := JobInvF.newQueued h hfresh hq0 hj hq
-  have hpc' : ∀ b, ((X.goto a pc').pcAt b).runningQ = (s.pcAt b).runningQ := by
-    intro b
-    rw [pcAt_goto]
-    split
-    · next hab => rw [hrun, hab.1]
-    · rw [hpc]
-  exact ⟨fun b j q hb => by rw [hpc'] at hb; rw [jobPQ_goto]; exact h0.run1 b j q hb, fun b j q hb => by rw [jobPQ_goto] at hb; rw [hpc']; exact h0.run2 b j q hb,
-         fun q l j hl hm => by rw [qjobs_goto] at hl; rw [jobPQ_goto]; exact h0.queued q l j hl hm,
-         fun q l hl => by rw [qjobs_goto] at hl; exact h0.nodup q l hl⟩
+  have h0 : JobInvF (fun b => (s.pcAt b).runningQ) X.jobPQ X.qjobs X.jobOpen := JobInvF.newQueued h hfresh hq0 hj hq ho
+  exact JobInvF.congr h0 (runR_goto_same hpc hrun) (fun i => by rw [jobPQ_goto]) (fun i => by rw [qjobs_goto]) (fun i => by rw [jobOpen_goto])
+
+/-- side condition of `frame` for a `setJob` that keeps the open flag -/
+theorem ho_setJob_keep {s : State} {j : Nat} {b v : Job} (hj : s.jobs[j]? = some b) (hk : v.begun = b.begun ∧ v.ended = b.ended) :
+    ∀ i, (s.setJob j v).jobOpen i = true → s.jobOpen i = true ∨ ∃ a q, s.jobPQ i = some (.held a, q) := by
+  intro i hi
+  rw [jobOpen_setJob_keep hj hk.1 hk.2] at hi
+  exact Or.inl hi
+
+/-- side condition of `frame` for a `setJob` on a job that is in the hands of a runner -/
+theorem ho_setJob_held {s : State} {j : Nat} {b v : Job} (hj : s.jobs[j]? = some b) (hh : ∃ a q, s.jobPQ j = some (.held a, q)) :
+    ∀ i, (s.setJob j v).jobOpen i = true → s.jobOpen i = true ∨ ∃ a q, s.jobPQ i = some (.held a, q) := by
+  intro i hi
+  rw [jobOpen_setJob_of hj] at hi
+  split at hi
+  · next e => rw [e]; exact Or.inr hh
+  · exact Or.inl hi
+
+/-- at most one job per queue is in the hands of a runner: from the run-right invariant -/
+theorem heldExcl_of {s : State} (hh : HolderInv s) (hw : WfInv s) (h : JobInv s) : HeldExcl s.jobPQ := by
+  intro j1 j2 a1 a2 q h1 h2
+  have r1 := h.run2 a1 j1 q h1
+  have r2 := h.run2 a2 j2 q h2
+  have o1 := (hh.iff a1 q).mp (holds_of_runningQ (hw a1) r1)
+  have o2 := (hh.iff a2 q).mp (holds_of_runningQ (hw a2) r2)
+  rw [o1] at o2
+  have ha : a1 = a2 := by simpa using o2
+  subst ha
+  rw [r1] at r2
+  simpa using congrArg Prod.fst (Option.some.inj r2)
 
 end Desync
